@@ -295,6 +295,8 @@ def fam_registry(seed, i):
     w = {"from_registry": 6, "setup": 1.5, "register": 2, "replace": 1.5, "unregister": 2, "try_from_registry": 3, "already_running": 3,
          "stop": 2, "await": 1, "await_ref": 0.7, "stopped": 2, "running": 1, "send": 2, "call": 2, "drop": 2, "yield": 3, "clone": 0.5, "halt": 0.7}
     scripts = [[], [Y], [eff("ctx_stop")], [eff("ctx_stop")]]
+    if rng.random() < 0.3:
+        scripts += [[eff("panic")], [eff("panic")]]          # a registered instance that dies of a failure
     cnt = [0]
     for c in cl:
         p = Prog(rng, c, handles[c], w, scripts, cnt)
